@@ -323,6 +323,8 @@ func (s *Server) reverseSCION() error {
 	if s.scionLayer.Path, err = s.scionLayer.Path.Reverse(); err != nil {
 		return serrors.Wrap("reversing path", err)
 	}
+	// Reversing can change the path type (a one-hop path reverses into a SCION path).
+	s.scionLayer.PathType = s.scionLayer.Path.Type()
 	return nil
 }
 
